@@ -66,6 +66,42 @@ def minimal(t, rng):
     return f"{out[0]}{out[1]}" if t[0] == "then" else f"{out[0]} {rng.choice(SPELL[t[0]])} {out[1]}"
 
 
+def rotations(t, path=()):
+    """the same run of one operator grouped the other way: (a op b) op c <-> a op (b op c), at every node"""
+    if t[0] in ("and", "or", "xor"):
+        op = t[0]
+        if t[1][0] == op:
+            yield path, (op, t[1][1], (op, t[1][2], t[2])), (t[1][1], t[1][2], t[2])
+        if t[2][0] == op:
+            yield path, (op, (op, t[1], t[2][1]), t[2][2]), (t[1], t[2][1], t[2][2])
+    if t[0] != "L":
+        for i in (1, 2):
+            for p, r, ops in rotations(t[i], ()):
+                yield path + (i,) + p, r, ops
+
+
+def hint_fc_corner(op, operands):
+    """the one place where the grouping inside a run decides about validity (DESIGN.md 7, I-C05; Coq: C05_run_grouping_can_change_validity): a run of
+    O or X over operands without a requirement constraint in which a single hint and a single format constraint end up as direct partners"""
+    if op not in ("or", "xor") or any(exprs.carries(x) for x in operands):
+        return False
+    cls = ["H" if exprs.isleaf(x, "hint") else "F" if exprs.isleaf(x, "fc") else "N" for x in operands]
+    hf = lambda a, b: {a, b} == {"H", "F"}
+    return hf(cls[0], cls[1]) != hf(cls[1], cls[2])
+
+
+def small_scope_runs():
+    """every run of three operands over the four classes of operands (hint, format constraint, neutral compound, requirement constraint), grouped to the left"""
+    reps = {"H": ["501", "502", "503"], "F": ["901", "902", "903"], "R": ["1", "2", "3"]}
+    out = []
+    for op in ("and", "or", "xor"):
+        for cls in itertools.product("HFNR", repeat=3):
+            xs = [("and", ("L", "50" + str(4 + i)), ("L", "90" + str(4 + i))) if c == "N" else ("L", reps[c][i]) for i, c in enumerate(cls)]
+            out.append((op, (op, xs[0], xs[1]), xs[2]))
+            out.append((op, xs[0], (op, xs[1], xs[2])))
+    return out
+
+
 def run(ctx):
     from vlib import evalimpl
     from ahbicht.expressions.condition_expression_parser import parse_condition_expression_to_tree
@@ -121,6 +157,8 @@ def run(ctx):
                     n_eval += 1
                     if evalcorr.eval_node_outcome(t2, rho) != base[tuple(rho.items())]:
                         ctx.fail(f"{name}|brackets|{s2}", {"expression": name, "transformed": s2, "rc": rho}, str(base[tuple(rho.items())]), "differs", "oracle: redundant brackets changed the outcome")
+        # the grouping inside a run of one operator (what C01 leaves open; brackets inside a run choose it): same outcome whenever both groupings are valid
+        n_eval += regrouping(ctx, name, t, rhos, base, parse_condition_expression_to_tree)
         # definite outcomes are stable under every resolution of UNKNOWN
         for rho in rhos:
             unk = [k for k, v in rho.items() if v == "UNKNOWN"]
@@ -132,6 +170,17 @@ def run(ctx):
                     g = evalcorr.eval_node_outcome(t, rho2)
                     if g != b:
                         ctx.fail(f"{name}|refine|{sorted(rho.items())}", {"expression": name, "rc": rho2, "partial": rho}, str(b), str(g), "oracle: definite outcome changed when UNKNOWN was resolved")
+    n_runs = 0
+    for t in small_scope_runs():
+        if exprs.dom(t) and exprs.valid(t):
+            rk = sorted({k for k in exprs.leaves(t) if exprs.kind(k) == "rc"})
+            rhos = list(exprs.assignments(rk, STATES)) if len(rk) <= 2 else [dict(zip(rk, v)) for v in itertools.product(STATES, repeat=len(rk))][::2]
+            base = {tuple(rho.items()): evalcorr.eval_node_outcome(t, rho) for rho in rhos}
+            n_eval += len(rhos) + regrouping(ctx, exprs.show(t), t, rhos, base, parse_condition_expression_to_tree)
+            n_runs += 1
+    ctx.notes["regrouping"] = {"small_scope_runs_of_three": n_runs, "rule": "every run of three operands over {hint, format constraint, neutral compound, requirement constraint} x {U, O, X}, "
+                               "both groupings; plus every rotation inside the sampled corpus expressions; expected: same requirement outcome whenever both groupings are valid, "
+                               "and validity differs only in the hint/format-constraint corner of I-C05"}
     ctx.add_eval(n_eval)
     ctx.coverage["distinct_nontrivial"] = n_rel
     ctx.coverage["rule"] = ("metamorphic relations executed on ahbicht: for sampled valid in-domain expressions, EVERY position at which hint-and / attach-fc / swap applies "
@@ -143,6 +192,37 @@ def run(ctx):
     ctx.add_eval(latency.rc_latency_oracle(ctx, cases, 12 if ctx.quick else 150,
                                            "oracle: the requirement outcome does not depend on how long the single asynchronous evaluators take"))
     return finish(ctx, assumptions=["node-level evaluation through evaluate_requirement_constraint_tree with dict-based evaluators"])
+
+
+def regrouping(ctx, name, t, rhos, base, parse):
+    n = 0
+    for path, rot, operands in rotations(t):
+        t2 = replace(t, path, rot)
+        if not exprs.valid(t2):
+            # the structural criterion (C06) says the other grouping is invalid: that happens in the hint/format-constraint corner only
+            cur = t
+            for p_ in path:
+                cur = cur[p_]
+            if not hint_fc_corner(cur[0], operands):
+                ctx.fail(f"{name}|regroup-validity|{exprs.show(t2)}", {"expression": name, "transformed": exprs.show(t2)}, "still valid", "invalid by the structural criterion",
+                         "oracle: regrouping a run of one operator changed the validity outside the hint / format-constraint corner")
+            continue
+        # through the parser: brackets that pin the other grouping
+        try:
+            t3 = exprs.from_lark(parse(minimal(t2, ctx.rng)))
+        except BaseException as e:  # pylint: disable=broad-except
+            ctx.fail(f"{name}|regroup-parse|{exprs.show(t2)}", {"expression": name, "transformed": exprs.show(t2)}, "parses", repr(e), "oracle: brackets inside a run")
+            continue
+        for rho in rhos[:4]:
+            n += 2
+            want = base[tuple(rho.items())]
+            for tt in (t2, t3):
+                got = evalcorr.eval_node_outcome(tt, rho)
+                if got != want:
+                    ctx.fail(f"{name}|regroup|{exprs.show(tt)}|{sorted(rho.items())}", {"expression": name, "transformed": exprs.show(tt), "rc": rho}, f"{want}", f"{got}",
+                             "oracle: the grouping inside a run of one operator (brackets inside the run) changed the requirement outcome although both groupings are valid")
+                    break
+    return n
 
 
 def replay(path):
